@@ -16,6 +16,19 @@ CHECKS = {
             "TableEnv stand-in and projection in lvf/tables.py; dyadic values so float32 is exact; built-in environments: "
             "value relations up to tolerance (atoms).",
             "DESIGN.md section 4 C01"),
+    "C03": ("TLA+ GAE spec: TLC exhaustive case enumeration + real compute_returns_and_advantages validated case by case",
+            "TLC proves on the complete bounded case space that the implementation-shaped reverse masked scan equals the "
+            "declarative GAE definition (and lambda=1 / lambda=0 / cut-at-done corollaries); the same space is fed to the real "
+            "RolloutBuffer.compute_returns_and_advantages (single and vmapped stacked streams) and every result is checked by TLC "
+            "against the specification; advantages of real PPO/A2C/REINFORCE rollouts are validated as part of collector traces.",
+            "exact on a dyadic grid (float32 exact); arbitrary reals not decided (GAE is multilinear for fixed masks).",
+            "DESIGN.md section 4 C03"),
+    "C04": ("TLA+ OnPolicy collector spec: TLC exhaustive + trace validation of real PPO/A2C/REINFORCE rollouts (C2S)",
+            "TLC checks OnPolicy.tla (per-step collector over wrapped finite MDPs, tabular policy, post_collect GAE) against the "
+            "declarative sentences of C04 on small configurations; every row of thousands of real rollouts (algo.reset + "
+            "algo.iteration, 1..3 environments, discrete/masked/box actions, wrapper stacks) is validated clause by clause.",
+            "TableEnv / TableACPolicy stand-ins built on public extension points; production MLP policy covered by re-evaluation atoms.",
+            "DESIGN.md section 4 C04"),
 }
 
 PENDING_REASON = "check not built yet in this round (planned: see DESIGN.md section 4); not claimed until its machinery exists"
